@@ -197,6 +197,75 @@ theorem swaps_history_conserved {W U : Nat} (qs : List SwapParams) :
         subst this
         simp only [hside, if_false]; omega
 
+/-! ### virtual inventory (`vi_swaps`) -/
+
+/-- a present swap virtual inventory receives exactly the liquidity pool's deltas on both sides
+(and an absent one stays absent: `swap_other_untouched`). -/
+theorem swap_vi_follows_liquidity {W U : Nat} {m m' : Market} {q : SwapParams} {c : SwapCalc} {v : Pool}
+    (h : swap W U m q = .ok (m', c)) (hv : m.viSwaps = some v) :
+    ∃ v', m'.viSwaps = some v' ∧
+      (v'.amount q.isInLong : Int) = v.amount q.isInLong + c.tokenIn + c.fees.pool ∧
+      (v'.amount (!q.isInLong) : Int) = v.amount (!q.isInLong) - c.poolOut := by
+  obtain ⟨_, _, _, ha, _⟩ := swap_ok h
+  have f := swapApply_spec ha
+  obtain ⟨v', e, a, b⟩ := f.vi_some v hv
+  have := f.liq_in; have := f.liq_out
+  exact ⟨v', e, by omega, by omega⟩
+
+/-- **the worse of the two impacts.** The impact a swap (or deposit) is priced with is never better
+than the impact on the real liquidity pool; it equals it when that impact is non-negative, when
+the caller does not ask for the virtual inventory, or when there is none; otherwise it is the
+smaller of the real impact and the impact of the same value delta on the virtual inventory. -/
+theorem swapImpact_worse_of_two {W U : Nat} {params : ImpactParams} {vi : Option Pool} {d : PoolDelta}
+    {dL dS : Int} {pL pS : Nat} {incl : Bool} {x : Int} {bc : BalanceChange}
+    (h : swapImpactValue W U params vi d dL dS pL pS incl = some (x, bc)) :
+    ∃ real rbc, d.priceImpact W U params = some (real, rbc) ∧ x ≤ real ∧
+      ((0 ≤ real ∨ incl = false ∨ vi = none) → (x, bc) = (real, rbc)) ∧
+      (∀ v, real < 0 → incl = true → vi = some v →
+        ∃ d' virt vbc, PoolDelta.tryNew W v.long v.short dL dS pL pS = some d' ∧
+          d'.priceImpact W U params = some (virt, vbc) ∧
+          (x, bc) = (if virt < real then (virt, vbc) else (real, rbc))) := by
+  unfold swapImpactValue at h
+  split at h
+  · cases h
+  · rename_i imp himp
+    obtain ⟨real, rbc⟩ := imp
+    refine ⟨real, rbc, himp, ?_⟩
+    split at h
+    · rename_i hc
+      cases h
+      refine ⟨Int.le_refl _, fun _ => rfl, fun v hneg hi hv => ?_⟩
+      simp only at hc
+      rcases hc with hc | hc
+      · omega
+      · rw [hi] at hc; cases hc
+    · rename_i hc
+      simp only [not_or, Decidable.not_not] at hc
+      obtain ⟨hneg, hincl⟩ := hc
+      split at h
+      · cases h
+        exact ⟨Int.le_refl _, fun _ => rfl, fun v _ _ hv => by cases hv⟩
+      · rename_i v
+        split at h
+        · cases h
+        · rename_i d' hd'
+          split at h
+          · cases h
+          · rename_i vimp hvimp
+            obtain ⟨virt, vbc⟩ := vimp
+            have hx : (x, bc) = (if virt < real then (virt, vbc) else (real, rbc)) := by
+              simp only at h
+              split at h <;> cases h <;> simp [*]
+            refine ⟨?_, fun hor => ?_, fun v0 _ _ hv0 => ?_⟩
+            · simp only at h
+              split at h <;> cases h <;> omega
+            · rcases hor with hor | hor | hor
+              · omega
+              · rw [hor] at hincl; exact absurd rfl hincl
+              · cases hor
+            · cases hv0
+              exact ⟨d', virt, vbc, hd', hvimp, hx⟩
+
 /-! ### Non-vacuity: a positive-impact swap paid partly from both impact pools, and a negative one -/
 
 def cfg0 : MarketConfig :=
@@ -235,5 +304,12 @@ example : errOf (swap 64 1000000000 m0 ⟨true, 0, pr0⟩) = some .emptySwap := 
 example : errOf (swap 64 1000000000 m0 ⟨true, 5, ⟨⟨1, 1⟩, ⟨0, 1⟩, ⟨1, 1⟩⟩⟩) = some .invalidPrices := by decide +kernel
 /-- output larger than the liquidity: fails, and the state transition keeps the market. -/
 example : errOf (swap 64 1000000000 m0 ⟨true, 2000000000, pr0⟩) = some .fail := by decide +kernel
+
+/-- a virtual inventory more imbalanced than the real pool makes the SAME swap dearer: impact
+−6 720 on the real pool, −25 920 on the virtual inventory (long 9e9 / short 1e9) — the worse one is
+charged, and the inventory moves with the liquidity pool. -/
+example : (match swap 64 1000000000 { m0 with viSwaps := some ⟨9000000000, 1000000000⟩ } ⟨true, 100000000, pr0⟩ with
+    | .ok (m', c) => [c.impactValue, c.impactAmount, c.tokenOut, (m'.viSwaps.getD {}).long, (m'.viSwaps.getD {}).short]
+    | .error _ => []) = [-25920, 25920, 99904080, 9099948180, 900095920] := by decide +kernel
 
 end Gmx.C04
